@@ -82,7 +82,7 @@ def compare_loaded(cl, got, exp):
                'lecturer ranks present without -twopl: %s' % (got['lrank'],))
 
 
-def run_once(argv, chooser=None, seed=0, getters=('short', 'long'), mode='standin', timeLimit=None, presolve=False, postsolve=False, **kw):
+def run_once(argv, chooser=None, seed=0, getters=('short', 'long'), mode='standin', timeLimit=None, presolve=False, postsolve=False, prerun=None, **kw):
     """Fresh Solver, one solve under observation (the virtual clock, if any, is
     already in place when the Solver is constructed).  Returns dict."""
     rec = observe.Recorder(mode=mode, chooser=chooser, seed=seed, **kw)
@@ -94,6 +94,23 @@ def run_once(argv, chooser=None, seed=0, getters=('short', 'long'), mode='standi
             return r
         r['solver'] = S
         rec.solver = S
+        if prerun is not None:
+            # an EARLIER run with its own outcome plan, durations and time limit, then every results getter (MC_Runs)
+            pre = observe.Recorder(mode='standin', seed=seed + 3, keep_sets=False, clock=rec.clock, plan=prerun.get('plan'),
+                                   durations=prerun.get('durations'), values_on_fault=kw.get('values_on_fault', 'zeros'))
+            pre.solver = S
+            observe._active[0] = pre
+            try:
+                with impl.quiet():
+                    S.solve() if prerun.get('timeLimit') is None else S.solve(timeLimit=prerun['timeLimit'])
+                r['pre_events'] = pre.events
+                r['pre_texts'] = {}
+                for g, fn in (('results', S.get_results), ('short', S.get_results_short), ('long', S.get_results_long)):
+                    r['pre_texts'][g] = fn()
+            except BaseException as e:  # noqa
+                r['pre_exc'] = '%s: %s' % (type(e).__name__, e)
+            finally:
+                observe._active[0] = rec
         if presolve:
             # a healthy solve and one call of every getter BEFORE the observed run (same object)
             pre = observe.Recorder(mode='standin', seed=seed + 1, keep_sets=False, clock=rec.clock)
